@@ -21,7 +21,7 @@ func init() {
 	register(&Rule{ID: "LK4", Min: 3, Run: ruleLK4,
 		Doc: "read-inside-lock: in every lock callback that can commit, a loader call inside the callback dominates every commit call; no captured variable carrying graph/task/event data (by type or by derivation from a loader) is read inside the callback before being written there; the callback operand is a closure or named function"})
 	register(&Rule{ID: "LK5", Min: 3, Run: ruleLK5,
-		Doc: "single-commit-per-command: on every path of every entry point at most one commit (append-open, rename onto the log, or other visible mutation of a LOG path) executes; a commit in a CFG cycle counts as unbounded; reported at the innermost function whose own call sites exceed one"})
+		Doc: "single-commit-per-command: on every path of every entry point at most one commit (append-open, rename onto the log, or other visible mutation of a LOG path) executes; a commit in a CFG cycle counts as unbounded; reported at the innermost function whose own call sites exceed one. An identity rewrite - the replace primitive handed exactly what readEvents just returned for the same path (a tail repair) - changes nothing a reader can see and is not counted"})
 	register(&Rule{ID: "LK6", Min: 3, Run: ruleLK6,
 		Doc: "no-async / no-abort: no go statement, no os/exec, raw syscalls, unsafe or cgo anywhere in the module; no os.Exit, log.Fatal or explicit panic in internal/ergo"})
 	register(&Rule{ID: "LK7", Min: 2, Run: ruleLK7,
@@ -1103,6 +1103,9 @@ func ruleLK5(c *Ctx) {
 				n, what := 0, ""
 				cal := calleeOf(call.Common())
 				switch {
+				case c.identityRewriteCall(call):
+					// the log replaced by exactly what was read from it: no observable state changes, so a death between
+					// this and the command's real commit leaves the state before the command
 				case isCommitEffect(call):
 					n, what = 1, calleeFullName(call.Common())
 				case cal != nil && c.F.isLockFn(cal):
